@@ -636,6 +636,9 @@ func runC18(e *Env) error {
 			}
 		}
 	})
+	if e.Replay == "" {
+		c18Planned(e, viol, &mu)
+	}
 	e.Res.Note("atlas processes run: %d", cliRuns.Load())
 	return nil
 }
